@@ -174,7 +174,7 @@ class PathVal(SVal):
     def type_desc(self):
         return TPath()
 
-    def meth_unlink(self, cx):
+    def meth_unlink(self, cx, missing_ok=False):
         cx.effect("unlink", self.t)
 
     def py_hash(self, cx):
